@@ -229,7 +229,8 @@ Section Format.
             | Some env =>
                 match zget adj t1, zget adj t2 with
                 | Some l1, Some l2 =>
-                    match find (fun x => in_env x env) l1, find (fun x => in_env x env) l2 with
+                    (* since fix e4fb73d: the first WRITTEN substituent of each terminal atom, an explicit hydrogen included *)
+                    match find (fun x => in_env x env || is_H g x) l1, find (fun x => in_env x env || is_H g x) l2 with
                     | Some n1, Some n2 =>
                         match translate_al (is_H g) env n1 n2 s with
                         | Ok r => Ok (if r then "@" else "@@")%string
